@@ -379,3 +379,7 @@ def count_distinct(xs):
 
 def is_single(s):
     return len(s) == 0
+
+
+def rename_keys(d, m):
+    return {m.get(k, k): v for k, v in d.items()}
